@@ -72,7 +72,7 @@ Theorem step_alive fc fb tid_of c o i : tinv c -> i < c_next_inst c ->
   let '(c', ob) := c_step fc fb tid_of c o in count_invokes i ob + alive c' i = alive c i.
 Proof.
   intros Hinv Hi. pose proof Hinv as (Hid & Hin & Hall).
-  destruct o as [id raw h|raw|d|now|now|r|s| |now|d|fid]; cbn [c_step].
+  destruct o as [id raw h|raw|d|now|now|r|s| |now|d|fid|sid]; cbn [c_step].
   - (* Start: the instance it allocates is c_next_inst c, not i *)
     unfold c_start, c_start_gen. destruct (c_closed c); [rewrite ret_no_invoke; lia|].
     set (t := mkTxn (c_next_inst c) id 0 0 h (c_rto c) raw).
@@ -153,6 +153,10 @@ Proof.
     destruct (count_app i o2 [ORet CNil]) as [Ha2 _]. rewrite Ha2, ret_no_invoke.
     rewrite (alive_ext c (set_closed (upd_A c A')) i eq_refl) in Hc. lia.
   - unfold count_invokes. cbn [filter]. rewrite lenN_nil. rewrite (alive_ext c (c_foreign c fid) i eq_refl). lia.
+  - unfold c_app_stop. destruct (a_step _ _) as [A' [r evs]].
+    destruct (budget_ext c (upd_A c A') eq_refl eq_refl eq_refl) as [Hi1 _].
+    pose proof (feed_alive fc fb evs (kind_evk []) i (upd_A c A') (Hi1 Hinv)) as Hf.
+    destruct (feed _ _ _ _ _) as [c2 ob]. rewrite (alive_ext c (upd_A c A') i eq_refl) in Hf. exact Hf.
 Qed.
 
 Lemma next_of_frame c c' : frame c' = frame c -> c_next_inst c' = c_next_inst c.
@@ -166,7 +170,7 @@ Proof.
 Qed.
 Lemma step_next_mono fc fb tid_of c o : c_next_inst c <= c_next_inst (fst (c_step fc fb tid_of c o)).
 Proof.
-  destruct o as [id raw h|raw|d|now|now|r|s| |now|d|fid]; cbn [c_step].
+  destruct o as [id raw h|raw|d|now|now|r|s| |now|d|fid|sid]; cbn [c_step].
   - unfold c_start, c_start_gen. destruct (c_closed c); [cbn [fst]; lia|].
     set (c0 := mkClient _ _ _ _ _ _ _ _ _ _ (c_next_inst c + 1)).
     destruct (T_find id (c_T c0)); [cbn [fst c_next_inst c0]; lia|].
@@ -215,6 +219,9 @@ Proof.
     pose proof (feed_frame fc fb evs (kind_evk (take 1024 d)) c2) as HF.
     destruct (feed _ _ _ _ _) as [c3 o2]. cbn [fst] in *. apply next_of_frame in HF. lia.
   - cbn [fst c_foreign c_next_inst upd_A]. lia.
+  - unfold c_app_stop. destruct (a_step _ _) as [A' [r evs]].
+    pose proof (feed_frame fc fb evs (kind_evk []) (upd_A c A')) as HF.
+    destruct (feed _ _ _ _ _) as [c2 ob]. cbn [fst] in *. apply next_of_frame in HF. cbn [c_next_inst upd_A] in HF. lia.
 Qed.
 
 Theorem run_alive fc fb tid_of ops i : forall c, tinv c -> i < c_next_inst c ->
